@@ -44,6 +44,7 @@ fn main() {
         "record-sessions" => sessions::record(&a),
         "replay-sessions" => sessions::replay(&a),
         "stress" => sessions::stress(&a),
+        "record-bigsent" => sessions::record_bigsent(&a),
         "record-conn" => connrec::record(&a),
         "replay-conn" => connrec::replay(&a),
         "truncate" => image::truncate(&a),
